@@ -52,6 +52,7 @@ type mapOrder struct {
 	inProg   map[*types.Func]bool
 	nLoops   int
 	nSyncMap int
+	nChan    int
 }
 
 // total sorts that sanitise a slice collected from a map
@@ -73,10 +74,20 @@ func ruleMapOrder(c *Ctx) {
 					return true
 				}
 				if _, ok := tv.Underlying().(*types.Map); !ok {
+					// the order in which values arrive on a channel depends on the scheduling of the senders
+					if _, isChan := tv.Underlying().(*types.Chan); isChan {
+						m.nChan++
+						effs := m.effectsOfRegion(info, fd, x.Body, x.Body.Pos(), x.Body.End(), 0)
+						m.conclude(fd, fname, info, "range over channel "+exprStr(m.p.Fset, x.X), x.Pos(), x.End(), map[types.Object]bool{}, effs, reach)
+					} else {
+						m.judgeRecvLoop(fd, fname, info, x, x.Body, reach)
+					}
 					return true
 				}
 				m.nLoops++
 				m.judgeLoop(fd, fname, info, x, reach)
+			case *ast.ForStmt:
+				m.judgeRecvLoop(fd, fname, info, x, x.Body, reach)
 			case *ast.CallExpr:
 				if qualName(calleeOf(info, x)) == "sync.Map.Range" && len(x.Args) == 1 {
 					if fl, ok := ast.Unparen(x.Args[0]).(*ast.FuncLit); ok {
@@ -92,6 +103,33 @@ func ruleMapOrder(c *Ctx) {
 	}
 	c.census("M-ORDER", "range-over-map loops", m.nLoops, 30)
 	c.census("M-ORDER", "sync.Map.Range callbacks", m.nSyncMap, 1)
+}
+
+// judgeRecvLoop: a loop whose body receives values from a channel processes them in arrival order, which
+// depends on the scheduling of the sending goroutines; the body's effects are judged like those of a map loop.
+func (m *mapOrder) judgeRecvLoop(fd *ast.FuncDecl, fname string, info *types.Info, loop ast.Node, body *ast.BlockStmt, reach map[string]bool) {
+	var recv *ast.UnaryExpr
+	ast.Inspect(body, func(n ast.Node) bool {
+		switch x := n.(type) {
+		case *ast.FuncLit:
+			return false
+		case *ast.UnaryExpr:
+			if x.Op == token.ARROW {
+				if ct, ok := info.TypeOf(x.X).Underlying().(*types.Chan); ok {
+					if st, isStruct := ct.Elem().Underlying().(*types.Struct); !isStruct || st.NumFields() > 0 {
+						recv = x // a value is received (signals of type struct{} carry nothing whose order could show)
+					}
+				}
+			}
+		}
+		return true
+	})
+	if recv == nil {
+		return
+	}
+	m.nChan++
+	effs := m.effectsOfRegion(info, fd, body, body.Pos(), body.End(), 0)
+	m.conclude(fd, fname, info, "loop receiving from channel "+exprStr(m.p.Fset, recv.X), loop.Pos(), loop.End(), map[types.Object]bool{}, effs, reach)
 }
 
 // reachableDecls: declarations reachable from main/init in the VTA call graph (dead code is not observable).
@@ -289,7 +327,7 @@ func (m *mapOrder) conclude(fd *ast.FuncDecl, fname string, info *types.Info, de
 		}
 		parts = append(parts, s)
 	}
-	m.c.finding("M-ORDER", fname, desc, pos, "map iteration order reaches an observable value without a total sort: "+strings.Join(parts, "; "))
+	m.c.finding("M-ORDER", fname, desc, pos, "an order that the input does not determine (map iteration, arrival on a channel) reaches an observable value without a total sort: "+strings.Join(parts, "; "))
 }
 
 // indexRemovalMethod (role): the method of the workspace index taking (path, *FileIndex) that deletes the
